@@ -88,10 +88,10 @@ def verifier_for(cset):
     return v
 
 
-def verdict(fcp, cset):
-    """-> "Ok" | "Err" | "exception: ..." | "neither: ..." """
+def verdict(fcp, cset, verifier=None):
+    """-> "Ok" | "Err" | "exception: ..." | "neither: ..."   (verifier: ask this long-lived object instead of a fresh one)"""
     try:
-        r = verifier_for(cset).verify(fcp)
+        r = (verifier if verifier is not None else verifier_for(cset)).verify(fcp)
     except Exception as e:
         return "exception: %s: %s" % (type(e).__name__, str(e)[:150])
     try:
